@@ -5,6 +5,7 @@ package core
 
 import (
 	"fmt"
+	"go/constant"
 	"go/token"
 	"go/types"
 	"os"
@@ -103,7 +104,7 @@ func load(root, mod string, patterns ...string) (*Prog, error) {
 		}
 	}
 	for fn := range ssautil.AllFunctions(prog) {
-		if fn.Blocks == nil || fn.Synthetic != "" && !strings.Contains(fn.Synthetic, "instance") {
+		if fn.Blocks == nil || fn.Synthetic != "" && !strings.Contains(fn.Synthetic, "instance") && fn.Parent() == nil {
 			continue
 		}
 		if pk := FuncPkg(fn); pk != nil && strings.HasPrefix(pk.Path(), mod) {
@@ -619,4 +620,25 @@ func RootParam(fn *ssa.Function, v ssa.Value) int {
 		v = st.Val
 	}
 	return -1
+}
+
+// ConstInt returns the integer value of the named package-level constant "pkg/path.Name".
+func (p *Prog) ConstInt(name string) (int64, bool) {
+	i := strings.LastIndex(name, ".")
+	if i < 0 {
+		return 0, false
+	}
+	pk := p.All[Mod+name[:i]]
+	if pk == nil {
+		pk = p.All[name[:i]]
+	}
+	if pk == nil || pk.Types == nil {
+		return 0, false
+	}
+	c, ok := pk.Types.Scope().Lookup(name[i+1:]).(*types.Const)
+	if !ok {
+		return 0, false
+	}
+	v, ok := constant.Int64Val(constant.ToInt(c.Val()))
+	return v, ok
 }
